@@ -19,7 +19,7 @@ import io
 
 from .. import tlc as T
 from .. import srtvtt_srt as S
-from ..srtvtt_common import FPS_LIST, gen_doc, validate
+from ..srtvtt_common import FPS_LIST, gen_doc, validate, apply_fragment
 
 PID = "C10"
 LEVEL = "model_checking"
@@ -149,14 +149,22 @@ def run(ctx):
   recs, meta = [], []
 
   # 1. design exploration + replay of every terminal state --------------------------------------------------------
-  res, cases = explore("tags", TAG_ALPHABET, TIMINGS_TAGS, MaxCues=1, MaxToks=5 if thorough else 4, MaxLinesPerCue=1,
+  maxtoks = 6 if thorough else 4
+  res, cases = explore("tags", TAG_ALPHABET, TIMINGS_TAGS, MaxCues=1, MaxToks=maxtoks, MaxLinesPerCue=1,
                        MaxBlankRun=0, AllowStray="FALSE")
-  ctx.tlc(res, f"exhaustive tag machine, <= {5 if thorough else 4} tokens over 10 ({len(cases)} files)")
+  ctx.tlc(res, f"exhaustive tag machine, <= {maxtoks} tokens over 10 ({len(cases)} files)")
   ctx.count("tag_sequences", len(cases))
   for hist in cases:
     if not any(ln["tm"] for ln in hist):
       continue
-    for syntax in (("angle", "brace", "mixed") if thorough else (rng.choice(["angle", "mixed"]), "brace")):
+    ntok = sum(len(ln["toks"]) for ln in hist)
+    if ntok >= 6:
+      syntaxes = (rng.choice(["angle", "brace", "mixed"]),)
+    elif thorough:
+      syntaxes = ("angle", "brace", "mixed")
+    else:
+      syntaxes = (rng.choice(["angle", "mixed"]), "brace")
+    for syntax in syntaxes:
       opts = {"eol": rng.choice(["\n", "\r\n"]), "syntax": syntax, "final_eol": rng.random() < 0.8, "io": rng.choice(["raw", "text"])}
       text = S.render_srt(hist, rng, opts["eol"], syntax, opts["final_eol"])
       record(recs, meta, "tags_exhaustive", text, opts, ())
@@ -256,6 +264,7 @@ def run(ctx):
   ctx.sample({"source": "random", "text": meta[k]["text"], "observed": recs[k]["obs"], "frames": recs[k]["fr"]})
   k = next((j for j, m in enumerate(meta) if m["source"] == "roundtrip"), 0)
   ctx.sample({"source": "roundtrip", "text": meta[k]["text"], "observed": recs[k]["obs"]})
+  apply_fragment(ctx)
   ctx.exhaustive = True
   ctx.assume("the harness lexer (harness/srtvtt_srt.py: line -> blank/digits/timing/tokens) is trusted; the meaning of the lines "
              "is decided by spec/SrtReader.tla")
